@@ -185,7 +185,10 @@ def main(argv=None):
             out = os.path.join(tmp, "shard%d.json" % i)
             cmd = python_cmd() + [prop, "--tier", args.tier, "--seed", str(args.seed), "--shard", "%d/%d" % (i, nshards), "--out", out, "--budget", str(budget)]
             log = open(os.path.join(tmp, "shard%d.log" % i), "w+")
-            procs.append((i, out, log, subprocess.Popen(cmd, stdout=log, stderr=subprocess.STDOUT, env=child_env(), cwd=ROOT)))
+            scratch = os.path.join(tmp, "scratch%d" % i)
+            os.makedirs(scratch, exist_ok=True)
+            # every scratch file of a shard lives under the run's temporary directory, which is removed even if the shard is killed
+            procs.append((i, out, log, subprocess.Popen(cmd, stdout=log, stderr=subprocess.STDOUT, env=dict(child_env(), VERIF_TMP=scratch), cwd=ROOT)))
         for i, out, log, p in procs:
             try:
                 rc = p.wait(timeout=max(30.0, budget * 3 + 120 - (time.time() - t0)))
